@@ -223,7 +223,7 @@ def floors(tier):
         f["twins_with_random_seed_0:" + kind] = 5 * k
         f["twins_with_boundary_random_seed:" + kind] = 5 * k
     f["S:shared_twins_with_random_seed_0"] = 15 * k
-    f["B:fresh_process_histories_with_random_seed_0"] = 6 if tier == "quick" else 60
+    f["B:fresh_process_histories_with_random_seed_0"] = 6 if tier == "quick" else 40
     f["B:fresh_process_cases_with_random_seed_0:sim"] = 1 if tier == "quick" else 10
     f["B:fresh_process_cases_with_random_seed_0:vt_gp"] = 1 if tier == "quick" else 10
     return f
